@@ -26,6 +26,7 @@ Reductions == {"unit_weights_l1", "unit_weights_mcp", "unit_weights_group", "l1_
 Symmetries == {"perm_features", "perm_features_weights", "perm_groups", "perm_within_group", "perm_tasks",
                "perm_samples", "stack_2", "stack_3", "scale_y_alpha", "scale_feature_weight"}
 SymSolvers == {"AndersonCD_L1", "AndersonCD_WeightedL1", "AndersonCD_MCP", "AndersonCD_Logistic", "ProxNewton_Logistic",
+               "ProxNewton_WeightedL1",
                "GroupBCD", "GroupBCD_SparseGroup", "GroupProxNewton", "MultiTaskBCD", "GramCD", "FISTA", "ProxNewton_Cox"}
 References == {"lasso_sklearn", "lasso_celer", "enet_sklearn", "lasso_positive_sklearn", "enet_positive_sklearn",
                "logreg_l1_sklearn", "svc_sklearn", "multitask_sklearn", "grouplasso_celer",
@@ -53,10 +54,10 @@ CritSolvers(c) ==
 Applicable(sym, s) ==
   CASE sym \in {"perm_groups", "perm_within_group"} -> s \in {"GroupBCD", "GroupBCD_SparseGroup", "GroupProxNewton"}
     [] sym = "perm_tasks" -> s = "MultiTaskBCD"
-    [] sym = "perm_features_weights" -> s = "AndersonCD_WeightedL1"
+    [] sym = "perm_features_weights" -> s \in {"AndersonCD_WeightedL1", "ProxNewton_WeightedL1"}
     [] sym = "scale_feature_weight" -> s = "AndersonCD_WeightedL1"
     [] sym = "scale_y_alpha" -> s \in {"AndersonCD_L1", "GramCD", "FISTA", "GroupBCD", "GroupBCD_SparseGroup", "MultiTaskBCD", "AndersonCD_WeightedL1"}
-    [] sym = "perm_features" -> s \notin {"AndersonCD_WeightedL1"}
+    [] sym = "perm_features" -> s \notin {"AndersonCD_WeightedL1", "ProxNewton_WeightedL1"}
     [] OTHER -> TRUE
 
 VARIABLES done
